@@ -32,6 +32,7 @@ import Fir.Proofs.SimdU16x4ALemmas
 import Fir.Proofs.SimdU16x2ALemmas
 import Fir.Proofs.SimdU16x1ALemmas
 import Fir.Proofs.SimdU8x1ALemmas
+import Fir.Proofs.SimdU8x2ALemmas
 
 namespace Fir.C02
 open Fir
@@ -742,7 +743,7 @@ theorem u8x1_avx2_source_as_modelled :
     Two rows per 256-bit register, one per 128-bit half, with the SSE4.1 four-row kernel's instructions per half: both halves of
     both masks are the SSE4.1 masks, the call sequence and `set_dst_pixel` (the same saturating join) are pinned - so each of its rows
     is `Fir.SimdU8x2.pixelR`, to which `u8x2_sse4_four_rows_eq_portable` applies; the rows of four-row blocks are executed through
-    that model against the AVX2 kernel's output.  (Its one-row kernel is tied by correspondence only.) -/
+    that model against the AVX2 kernel's output. -/
 
 theorem u8x2_avx2_four_rows_masks :
     Fir.Gen.u8x2_avx2_four_sh1_lo = Fir.Gen.u8x2_sse4_four_sh1 ∧ Fir.Gen.u8x2_avx2_four_sh1_hi = Fir.Gen.u8x2_sse4_four_sh1 ∧
@@ -755,5 +756,26 @@ theorem u8x2_avx2_four_rows_source_as_modelled :
   constructor
   · rfl
   · rfl
+
+/-! ### two-channel 8-bit images on AVX2, one-row kernel (src/convolution/u8x2/avx2.rs)
+
+    Fewer than 16 coefficients: the 128-bit kernel (4-steps and the gathered remainder).  Otherwise a 256-bit accumulator started at
+    `1 << (precision - 3)`: 16-steps (the SSE4.1 8-step per half), at most one 8-step (one 128-bit load duplicated into both halves,
+    masks `pix_sh3` / `coeff_sh3`: the first half of the SSE4.1 8-step in the low half, the second in the high half), the halves added,
+    then the 128-bit steps; the same saturating join.  Equal to the portable kernel inside the i32 headroom, for precision ≥ 3. -/
+
+theorem u8x2_avx2_one_row_eq_portable (p : Nat) (hp3 : 3 ≤ p) (row : List Int) (start : Nat) (ks : List Int)
+    (hB : 255 * Fir.SimdU8x2.absSum ks + 2 ^ (p - 1) < (2 : Int) ^ 31) :
+    Fir.SimdU8x2A.pixelA p row start ks
+      = [clip8 (2 ^ (p - 1) + Fir.SimdU8x2.dot2 row 0 ks start) p, clip8 (2 ^ (p - 1) + Fir.SimdU8x2.dot2 row 1 ks start) p] :=
+  Fir.Proofs.U8x2A.pixelA_eq_portable p hp3 row start ks hB
+
+theorem u8x2_one_row_avx2_eq_sse4 (p : Nat) (hp3 : 3 ≤ p) (row : List Int) (start : Nat) (ks : List Int)
+    (hB : 255 * Fir.SimdU8x2.absSum ks + 2 ^ (p - 1) < (2 : Int) ^ 31) :
+    Fir.SimdU8x2A.pixelA p row start ks = Fir.SimdU8x2.pixel p row start ks := by
+  rw [u8x2_avx2_one_row_eq_portable p hp3 row start ks hB, u8x2_sse4_one_row_eq_portable p (by omega) row start ks hB]
+
+theorem u8x2_avx2_one_row_source_as_modelled :
+    Fir.Gen.u8x2_avx2_one_row_skeleton = "normalizer.precision() ; _mm_set1_epi32(1 << (precision - 2)) ; _mm256_set1_epi32(1 << (precision - 3)) ; chunks_exact(16) ; remainder() ; simd_utils::loadu_si256(k, 0) ; simd_utils::loadu_si256(src_row, x) ; _mm256_shuffle_epi8(source, pix_sh1) ; _mm256_shuffle_epi8(ksource, coeff_sh1) ; _mm256_add_epi32(sss256, _mm256_madd_epi16(pix, mmk)) ; _mm256_shuffle_epi8(source, pix_sh2) ; _mm256_shuffle_epi8(ksource, coeff_sh2) ; _mm256_add_epi32(sss256, _mm256_madd_epi16(pix, mmk)) ; chunks_exact(8) ; remainder() ; simd_utils::loadu_si128(k, 0) ; _mm256_insertf128_si256::<1>(_mm256_castsi128_si256(tmp), tmp) ; simd_utils::loadu_si128(src_row, x) ; _mm256_insertf128_si256::<1>(_mm256_castsi128_si256(tmp), tmp) ; _mm256_shuffle_epi8(source, pix_sh3) ; _mm256_shuffle_epi8(ksource, coeff_sh3) ; _mm256_add_epi32(sss256, _mm256_madd_epi16(pix, mmk)) ; _mm_add_epi32(_mm256_extracti128_si256::<0>(sss256), _mm256_extracti128_si256::<1>(sss256),) ; chunks_exact(4) ; remainder() ; _mm_set_epi16(k[3], k[2], k[3], k[2], k[1], k[0], k[1], k[0]) ; simd_utils::loadl_epi64(src_row, x) ; _mm_shuffle_epi8(source, pix_sh4) ; _mm_add_epi32(sss, _mm_madd_epi16(pix, mmk)) ; is_empty() ; _mm_set_epi16(0, pixels[5], 0, pixels[4], pixels[3], pixels[1], pixels[2], pixels[0],) ; _mm_set_epi16(0, coeffs[2], 0, coeffs[2], coeffs[1], coeffs[0], coeffs[1], coeffs[0],) ; _mm_add_epi32(sss, _mm_madd_epi16(pix, mmk)) ; _mm_extract_epi64::<0>(sss) ; _mm_extract_epi64::<1>(sss) ; saturating_add((hi >> 32) as i32) ; saturating_add((hi & 0xffffffff) as i32) ; normalizer.clip(a32) ; normalizer.clip(l32) | if coeffs.len() < 16 ; coeffs[i] = coeff ; pixels[i * 2] = pixel[0] as i16 ; pixels[i * 2 + 1] = pixel[1] as i16 ; let a32 = ((lo >> 32) as i32).saturating_add((hi >> 32) as i32) ; let l32 = ((lo & 0xffffffff) as i32).saturating_add((hi & 0xffffffff) as i32) ; dst_row.get_unchecked_mut(dst_x).0 = [l8, a8]" := by rfl
 
 end Fir.C02
